@@ -466,13 +466,13 @@ func init() {
 								m["bcc"] = pool[g.Intn(len(pool))]
 							}
 						}
-						if !O.HasProp(t, "ActivityStreamsBto") && g.Chance(1, 3) {
+						if !O.HasProp(t, "ActivityStreamsBto") && g.Chance(1, 2) {
 							// a type without bto / bcc properties (a Link): the
 							// members are members all the same
 							m["bto"] = pool[g.Intn(len(pool))]
 							m["bcc"] = A{pool[0]}
 						}
-						if d > 0 && !O.HasProp(t, "ActivityStreamsObject") && g.Chance(1, 2) {
+						if !O.HasProp(t, "ActivityStreamsObject") && O.HasProp(t, "ActivityStreamsBto") && g.Chance(1, 2) {
 							// an 'object' member on a type that has no such property
 							m["object"] = M{"type": "Note", "id": fmt.Sprintf("%s/things/below/%d", L, cnt), "bcc": pool[0]}
 						}
@@ -482,7 +482,10 @@ func init() {
 								if g.Chance(1, 4) {
 									objs = append(objs, R1+"/notes/iri")
 								} else {
-									objs = append(objs, build(pick(g, "ActivityStreamsNote", "ActivityStreamsCreate", "ActivityStreamsAnnounce", "ActivityStreamsLike", "ActivityStreamsArticle"), d-1))
+									// among the embedded values also carriers the typed
+									// removal cannot see into: Links, and intransitive
+									// activities with an 'object' member
+									objs = append(objs, build(pick(g, "ActivityStreamsNote", "ActivityStreamsCreate", "ActivityStreamsAnnounce", "ActivityStreamsLike", "ActivityStreamsArticle", "ActivityStreamsCreate", "ActivityStreamsAnnounce", "ActivityStreamsLink", "ActivityStreamsMention", "ActivityStreamsQuestion"), d-1))
 								}
 							}
 							if len(objs) == 1 {
